@@ -36,6 +36,9 @@ fn op_eq(l: List[u64], a: u64, b: u64) -> u64 { let m: List[u64] = List.new(); m
 fn op_for(l: List[u64], a: u64, b: u64) -> u64 { let n = 0; for x in l { n = n + 1; } n }
 fn op_push(l: List[u64], a: u64, b: u64) -> u64 { l.push(a); 1 }
 fn op_swap(l: List[u64], a: u64, b: u64) -> u64 { l.swap(a, b); 1 }
+fn pair_eq(l: List[u64], m: List[u64], a: u64) -> u64 { if l == m { 1 } else { 0 } }
+fn pair_concat(l: List[u64], m: List[u64], a: u64) -> u64 { l.concat(m).len() }
+fn pair_nested(l: List[u64], m: List[u64], a: u64) -> u64 { let ll: List[List[u64]] = List.new(); ll.push(l); if ll.contains(m) { 1 } else { 0 } }
 "#;
 
 pub const SRC_STR: &str = r#"
@@ -48,7 +51,13 @@ fn op_eq(l: List[String], a: u64, b: u64) -> u64 { let m: List[String] = List.ne
 fn op_len(l: List[String], a: u64, b: u64) -> u64 { l.len() }
 fn op_push(l: List[String], a: u64, b: u64) -> u64 { l.push(a.to_string()); 1 }
 fn op_swap(l: List[String], a: u64, b: u64) -> u64 { l.swap(a, b); 1 }
+fn pair_eq(l: List[String], m: List[String], a: u64) -> u64 { if l == m { 1 } else { 0 } }
+fn pair_concat(l: List[String], m: List[String], a: u64) -> u64 { l.concat(m).len() }
+fn pair_nested(l: List[String], m: List[String], a: u64) -> u64 { let ll: List[List[String]] = List.new(); ll.push(l); if ll.contains(m) { 1 } else { 0 } }
 "#;
+
+/// two-list built-ins called as `f(a, b)` by the even threads and `f(b, a)` by the odd ones
+pub const OPS_PAIR: [(&str, &str); 3] = [("pair_eq", "List.get"), ("pair_concat", "List.concat"), ("pair_nested", "List.contains")];
 
 /// (script function, registered built-in, mutates the list)
 pub const OPS_U64: [(&str, &str, bool); 11] = [
@@ -114,6 +123,18 @@ pub fn cases(thorough: bool) -> Vec<ConcCase> {
     for (f, b, _) in OPS_STR {
         v.push(case(b, "String", &[f], true, if heavy(f) { big / 100 } else { big / 10 }, 2, 100, rounds / 2));
         v.push(case(b, "String", &[f], false, if heavy(f) { 50 } else { 200 }, 4, if heavy(f) { calls / 8 } else { calls / 2 }, 0));
+    }
+    for (f, b) in OPS_PAIR {
+        for elem in ["u64", "String"] {
+            let class = format!("{f}[{elem}] vs-opposite-argument-order");
+            v.push(ConcCase {
+                builtin: b,
+                class: class.clone(),
+                json: json!({"kind": "conc", "builtin": b, "class": class, "elem": elem, "ops": [f], "pair": true, "holder": false,
+                             "len": 300, "threads": 4, "calls": calls, "rounds": 0,
+                             "src": if elem == "u64" { SRC_U64 } else { SRC_STR }}),
+            });
+        }
     }
     let all_u: Vec<&str> = OPS_U64.iter().map(|x| x.0).collect();
     v.push(case("List.get", "u64", &all_u, false, 200, all_u.len() as u64, calls / 4, 0));
@@ -241,9 +262,53 @@ where
     Ok("ok".into())
 }
 
+/// Two shared lists with equal contents; even threads call `f(a, b)`, odd threads `f(b, a)`.
+fn run_pair<E: Elem>(case: &J, src: &str) -> Result<String, String>
+where
+    List<E>: roto::Value + Clone + Send + Sync,
+    E::Transformed: PartialEq,
+{
+    let op = case["ops"][0].as_str().ok_or("ops")?.to_string();
+    let len = case["len"].as_u64().ok_or("len")?;
+    let threads = case["threads"].as_u64().ok_or("threads")?;
+    let calls = case["calls"].as_u64().ok_or("calls")?;
+    let rt = Runtime::new();
+    let mut pkg = FileTree::test_file("c10conc.roto", src, 0).compile(&rt).map_err(|e| format!("{e}"))?;
+    let f = pkg.get_function::<fn(List<E>, List<E>, u64) -> u64>(op.as_str()).map_err(|e| format!("{e:?}"))?;
+    let a: List<E> = (0..len).map(E::make).collect();
+    let b: List<E> = (0..len).map(E::make).collect();
+    let expect = f.call(a.clone(), b.clone(), 0);
+    let wrong: std::sync::Mutex<Option<String>> = std::sync::Mutex::new(None);
+    std::thread::scope(|s| {
+        for t in 0..threads {
+            let (f, a, b, wrong, op) = (&f, &a, &b, &wrong, &op);
+            s.spawn(move || {
+                for k in 0..calls {
+                    let r = if t % 2 == 0 { f.call(a.clone(), b.clone(), k) } else { f.call(b.clone(), a.clone(), k) };
+                    if r != expect {
+                        *wrong.lock().unwrap() = Some(format!("{op} returned {r} under contention, {expect} single-threaded"));
+                        break;
+                    }
+                }
+            });
+        }
+    });
+    if let Some(w) = wrong.lock().unwrap().clone() {
+        return Ok(format!("wrong: {w}"));
+    }
+    Ok("ok".into())
+}
+
 /// Run one contention case in this process.
 pub fn run(case: &J) -> Result<String, String> {
     let src = case["src"].as_str().ok_or("src")?;
+    if case["pair"].as_bool().unwrap_or(false) {
+        return match case["elem"].as_str() {
+            Some("u64") => run_pair::<u64>(case, src),
+            Some("String") => run_pair::<RotoString>(case, src),
+            _ => Err("elem".into()),
+        };
+    }
     match case["elem"].as_str() {
         Some("u64") => run_typed::<u64>(case, src, &OPS_U64),
         Some("String") => run_typed::<RotoString>(case, src, &OPS_STR),
